@@ -110,7 +110,7 @@ def run(tier, seed, replay=None):
                 "go/ast lock-structure extractor harness/c13static.go (receiver-based, path-sensitive for early returns, loops unrolled twice)",
                 "Go race detector"],
             "evaluations": meta["total_runs"], "distinct_nontrivial": len(outcomes),
-            "rule": "7 directed + random programs: parent scope + shared child scope, 2-3 goroutines x 1-3 operations from Define, Set, Get, Delete, "
+            "rule": "9 directed + random programs: parent scope + shared child scope, 2-3 goroutines x 1-3 operations from Define, Set, Get, Delete, "
                     "DeleteGlobal, Symbols, DefineType, Type, TypeSymbols, Copy over keys a, b (child) and p (parent); every schedule of lock "
                     "acquisitions explored depth-first (cap per program %d runs); each distinct outcome (results + final scopes) checked "
                     "linearizable by the extracted model; non-trivial = distinct outcome" % (4000 if n <= 200 else 60000),
